@@ -124,6 +124,74 @@ def seeded_threading(ctx, shipped):
                               {'env': name, 'seed': seed, 'ops': ops, 'first_difference': k, 'stateful': str(got[k])[:300], 'functional': str(exp[k])[:300]})
 
 
+def read_patterns(ctx):
+    """the trajectory does not depend on WHEN observations are read: environments whose (user-written) reset function puts boxes with keys,
+    doors and keys into a room, driven with the same seed and actions under different patterns of observation reads (never / every step /
+    only while a box is still closed / twice at reset) -- same states, rewards and flags as threading through the functional interface"""
+    import numpy as np
+    from gym_gridverse.geometry import Position
+    from gym_gridverse.grid_object import Box, Color, Door, Floor, Key
+    r = ctx.rng
+    for k in range(10 if ctx.tier == 'quick' else 100):
+        desc = envs.rand_env(r)
+        desc['reset'] = {'name': 'empty', 'shape': (r.randint(5, 7), r.randint(5, 7)), 'random_agent': True, 'random_exit': False}
+        box_ty, door_ty, key_ty = gen.TY['Box'], gen.TY['Door'], gen.TY['Key']
+        for key in ('state_types', 'obs_types'):
+            desc[key] = sorted(set(desc[key]) | {box_ty, door_ty, key_ty})
+        desc['trans'] = [0, 1, 5, 4, 2]          # move, turn, actuate_box, actuate_door, pickndrop
+        desc['actions'] = list(range(8))
+        desc['obs'] = {'name': r.choice(['fully_transparent', 'partially_occluded', 'raytracing']), 'area': (-r.randint(2, 4), 0, -2, 2)}
+        desc['reward'] = {'name': 'reduce_sum', 'parts': [{'name': 'living_reward', 'params': [-0.05]}]}
+        desc['term'] = {'name': 'reach_exit'}
+        base = comp.build_reset(desc['reset'])
+
+        def reset(*, rng=None, base=base):
+            s = base(rng=rng)
+            h, w = s.grid.shape.height, s.grid.shape.width
+            free = [(y, x) for y in range(1, h - 1) for x in range(1, w - 1) if isinstance(s.grid[y, x], Floor) and (y, x) != s.agent.position.yx]
+            picks = rng.choice(len(free), size=min(4, len(free)), replace=False)
+            things = [lambda: Box(Key(Color.RED)), lambda: Box(Key(Color.BLUE)), lambda: Door(Door.Status.CLOSED, Color.RED), lambda: Key(Color.GREEN)]
+            for i, make in zip(picks, things):
+                s.grid[Position(*free[int(i)])] = make()
+            return s
+        try:
+            envs_ = [comp.build_env(desc, reset_override=reset) for _ in range(5)]
+        except Exception:  # noqa: BLE001
+            continue
+        seed = r.randrange(1 << 30)
+        acts = [r.choice([0, 0, 6, 6, 6, 7, 4, 5, 1, 2, 3]) for _ in range(r.randint(8, 25))]
+        # the functional thread
+        ref = envs_[0]
+        ref.set_seed(seed)
+        s = ref.functional_reset()
+        thread = [wire.cstate(s)]
+        try:
+            for a in acts:
+                s, rw, dn = ref.functional_step(s, envs.ACTS[a])
+                thread.append((wire.cstate(s), float(rw).hex(), bool(dn)))
+        except Exception:  # noqa: BLE001
+            continue
+        for pattern, env in zip(('never', 'always', 'twice at reset', 'every other step'), envs_[1:]):
+            env.set_seed(seed)
+            env.reset()
+            if pattern in ('always', 'twice at reset'):
+                env.observation
+                env.observation
+            got = [wire.cstate(env.state)]
+            for i, a in enumerate(acts):
+                rw, dn = env.step(envs.ACTS[a])
+                got.append((wire.cstate(env.state), float(rw).hex(), bool(dn)))
+                if pattern == 'always' or (pattern == 'every other step' and i % 2 == 0):
+                    env.observation
+            ctx.case(('read-pattern', k, pattern), True, None)
+            ctx.count('read pattern', pattern)
+            if got != thread:
+                j = next(i for i, (x, y) in enumerate(zip(got, thread)) if x != y)
+                ctx.violation(f'reading observations ({pattern}) changed the trajectory: the stateful run differs from the functional threading at step {j}',
+                              {'env': desc, 'seed': seed, 'actions': [envs.ACTS[a].name for a in acts], 'pattern': pattern, 'step': j,
+                               'stateful': str(got[j])[:300], 'functional': str(thread[j])[:300]})
+
+
 def rejected_actions(ctx):
     """an action outside the action space is rejected with ValueError and changes NOTHING: same state, same (memoised) observation object,
     no randomness consumed -- with a stochastic observation function a dropped memo would show as a re-sampled observation"""
@@ -217,6 +285,7 @@ def run(ctx):
         metas.append((label, desc, ops, debug, outs, log))
     seeded_threading(ctx, shipped)
     rejected_actions(ctx)
+    read_patterns(ctx)
     # the outer environment over the same inner machine: inner and outer operations interleaved on one object stack (model: Gym.v)
     from vt.suites.C20 import check_jobs
     check_jobs(ctx, jobs[::2] if ctx.tier == 'quick' else jobs, ['io', 'io', 'o', 'oi'], length)
